@@ -1,8 +1,8 @@
-from ..mux import MuxSpec
+from ..mux import MuxSpec, FlowSpec
 
 
-def make(prop, module, theorems, modes, rule, design, per_quick=900, per_thorough=40000):
-    class S(MuxSpec):
+def make(prop, module, theorems, modes, rule, design, per_quick=900, per_thorough=40000, flow=False):
+    class S(FlowSpec if flow else MuxSpec):
         pass
     S.prop = prop
     S.module = module
